@@ -109,17 +109,17 @@ impl Parseable for Action {
             ),
             unary!("-fprint0", Action::FilePrintNull, String::parse),
             unary!("-fprint", Action::FilePrint, String::parse),
-            terminated("-ls", multispace0).value(Action::List),
-            terminated("-print-file-fid", multispace0).value(Action::PrintFid),
+            literal("-ls").value(Action::List),
+            literal("-print-file-fid").value(Action::PrintFid),
             unary!(
                 "-printf",
                 Action::PrintFormatted,
                 quote_delimiter().and_then(Vec::<FormatElement>::parse)
             ),
-            terminated("-print0", multispace0).value(Action::PrintNull),
-            terminated("-print", multispace0).value(Action::Print),
-            terminated("-prune", multispace0).value(Action::Prune),
-            terminated("-quit", multispace0).value(Action::Quit),
+            literal("-print0").value(Action::PrintNull),
+            literal("-print").value(Action::Print),
+            literal("-prune").value(Action::Prune),
+            literal("-quit").value(Action::Quit),
         ))
         .context(label("action"))
         .parse_next(input)
@@ -260,6 +260,17 @@ pub fn lex(input: &mut &str) -> PResult<Vec<Token>> {
     .parse_next(input)
 }
 
+/// A primary is a whole word: it ends at a blank, at the end of the input or where a punctuation
+/// token starts. Without this `-true-false` or `-size 5k-print` would be read as two primaries.
+fn word_boundary(input: &mut &str) -> PResult<()> {
+    winnow::combinator::peek(alt((
+        multispace1.void(),
+        eof.void(),
+        one_of(['(', ')', '!', ',']).void(),
+    )))
+    .parse_next(input)
+}
+
 /// Consume a single token from the input.
 pub fn token(input: &mut &str) -> PResult<Token> {
     alt((
@@ -271,10 +282,10 @@ pub fn token(input: &mut &str) -> PResult<Token> {
         // as an expression, eg `-atime` does not become `[Token::And, "time"]`
         terminated(alt(("-or", "-o")), alt((multispace1, eof))).value(Token::Or),
         terminated(alt(("-and", "-a")), alt((multispace1, eof))).value(Token::And),
-        Test::parse.map(Token::Test),
-        Action::parse.map(Token::Action),
-        GlobalOption::parse.map(Token::Global),
-        PositionalOption::parse.map(Token::Positional),
+        terminated(Test::parse, word_boundary).map(Token::Test),
+        terminated(Action::parse, word_boundary).map(Token::Action),
+        terminated(GlobalOption::parse, word_boundary).map(Token::Global),
+        terminated(PositionalOption::parse, word_boundary).map(Token::Positional),
         fail.context(expected("invalid_token")),
     ))
     .context(label("syntax"))
@@ -287,7 +298,10 @@ fn _parse(input: &mut &str) -> PResult<(RunOptions, Exp)> {
     winnow::Parser::<&str, Vec<GlobalOption>, winnow::error::ContextError>::parse_next(
         &mut preceded(
             multispace0,
-            repeat(0.., terminated(GlobalOption::parse, multispace0)),
+            repeat(
+                0..,
+                terminated(terminated(GlobalOption::parse, word_boundary), multispace0),
+            ),
         ),
         input,
     )?
